@@ -147,7 +147,7 @@ fn heavy(kind: u64, rng: &mut Rng) -> (Comp, Vec<ContentSpec>, bool, &'static st
 
 /// One uncompressed cluster of more than 4 GiB: small, big (sparse file with markers), small,
 /// small. Everything is read back through the addresses insertion returned.
-fn four_gib_cluster(dir: &Path, rep: &mut BodyReport) {
+fn four_gib_cluster(dir: &Path, rep: &mut BodyReport, with_huge_slice: bool) {
     use jubako::creator::ContentAdder;
     use jubako::Pack;
     use std::io::{Seek, SeekFrom, Write};
@@ -215,7 +215,7 @@ fn four_gib_cluster(dir: &Path, rep: &mut BodyReport) {
         }
         // one slice of more than 2 GiB (more than a single read(2) transfers on Linux): the
         // markers sit where they were stored, the sparse parts in between are zero
-        {
+        if with_huge_slice {
             let n = (1usize << 31) + 8192;
             let s = region.get_slice(jubako::Offset::zero(), n).map_err(|e| format!("big content, slice of {n} bytes: {}", simcore::dump::err_class(&e)))?;
             if s.len() != n {
@@ -254,8 +254,8 @@ impl TCheck for C01 {
     }
     fn works(&self, tier: Tier) -> u64 {
         match tier {
-            Tier::Quick => 480 + N_HEAVY,
-            Tier::Thorough => 8000 + N_HEAVY,
+            Tier::Quick => 480 + N_HEAVY + 1,
+            Tier::Thorough => 8000 + N_HEAVY + 1,
         }
     }
     fn scheds(&self, tier: Tier) -> u64 {
@@ -268,7 +268,9 @@ impl TCheck for C01 {
         let mut rng = Rng::derive(seed, "c01-work", work);
         let dir = scratch.join(format!("w{work}"));
         std::fs::create_dir_all(&dir).unwrap();
-        if tier == Tier::Thorough && work == N_HEAVY {
+        if work == N_HEAVY {
+            // (both tiers; the slice of more than 2 GiB is asked for in the thorough tier only)
+            let with_huge_slice = tier == Tier::Thorough;
             // a raw cluster that crosses 2^32 bytes (the 4-byte offset width boundary): a sparse
             // file of 4 GiB + 1000 bytes between small contents, one schedule
             let dir2 = dir.clone();
@@ -277,7 +279,7 @@ impl TCheck for C01 {
                 knobs: vec![("creator_workers", 1u64), ("decomp_pool_size", 2u64)],
                 body: Arc::new(move |slot: &Slot| {
                     let mut rep = BodyReport::default();
-                    four_gib_cluster(&dir2, &mut rep);
+                    four_gib_cluster(&dir2, &mut rep, with_huge_slice);
                     rep.notes.insert("boundary_workloads".into(), 1);
                     rep.notes.insert("cluster_above_4GiB".into(), 1);
                     *slot.lock().unwrap() = rep;
